@@ -8,6 +8,7 @@ are exercised on the real agents by the per-run audit, not proved.
 import Bourse.Model.Agents
 import Bourse.Lemmas.PriceHelpers
 import Bourse.Lemmas.F64Prices
+import Bourse.Lemmas.FloatAgentsValid
 
 namespace Bourse.Props.C16
 open Bourse
@@ -261,6 +262,76 @@ example :
     FAgents.buyPrice (.fin (201/2)) .pinf 2 = 0 ∧ FAgents.sellPrice (.fin (201/2)) .pinf 2 = 4294967294 ∧
     FAgents.buyPrice (.fin (201/2)) .nan 2 = 0 ∧
     F64.add (F64.ofBits 0x3FB999999999999A) (F64.ofBits 0x3FC999999999999A) = F64.ofBits 0x3FD3333333333334 := by
+  decide +kernel
+
+/-! ### Whole updates of the noise and momentum agents
+
+`Model/FloatAgents.lean` models `NoiseAgent(Market)::update` and `MomentumAgent(Market)::update` in full
+(cancellation pass with its `f32` draws, the trader loop, the `f64` prices); the correspondence check
+requires it to predict every real update exactly. `LogNormal::sample` is an arbitrary function `smp` of
+the generator state, `tanh` an arbitrary function `th`: the theorems hold for all of them. -/
+
+/-- **Every instruction a noise agent submits is valid.** -/
+theorem noise_update_valid (c : FAgents.NoiseP) (smp : FAgents.Sampler) (orders : List Nat) (e : MEnv) (g : Xoro)
+    (b : Book) (hb : e.market.books[c.asset]? = some b) (hq : FAgents.QuoteOk b.mid2 c.tick smp)
+    {live' e' g'} (h : FAgents.noiseUpdate c smp orders e g = some (live', e', g')) :
+    FAgents.Reach c.asset c.tick c.vol c.traders ((b.mid2 : Rat) / 2) orders true true e e' :=
+  FAgents.noiseUpdate_reach c smp orders e g b hb hq h
+
+/-- **Every instruction a momentum agent submits is valid**, buys only while `0 < M`, sells only
+while `M < 0`. -/
+theorem momentum_update_valid (c : FAgents.MomP) (smp : FAgents.Sampler) (th : F → F) (s : FAgents.MomState) (e : MEnv) (g : Xoro)
+    (b : Book) (hb : e.market.books[c.asset]? = some b) (hq : FAgents.QuoteOk b.mid2 c.tick smp)
+    {s' e' g'} (h : FAgents.momUpdate c smp th s e g = some (s', e', g')) :
+    FAgents.Reach c.asset c.tick c.vol c.traders ((b.mid2 : Rat) / 2) s.orders
+      (F64.lt (.fin 0) (FAgents.signal c th s (.fin ((b.mid2 : Rat) / 2))).1)
+      (F64.lt (FAgents.signal c th s (.fin ((b.mid2 : Rat) / 2))).1 (.fin 0)) e e' :=
+  (FAgents.momUpdate_reach c smp th s e g b hb hq h).1
+
+/-- **Neither agent ever aborts the simulation** when it is consistent with the environment (its
+asset exists with its tick size; the orders it tracks exist) — for every sampler, NaN and infinities
+included, every `tanh`, every probability / decay / demand / scale / ratio, every generator state. -/
+theorem noise_update_never_aborts (c : FAgents.NoiseP) (smp : FAgents.Sampler) (orders : List Nat) (e : MEnv) (g : Xoro)
+    (b : Book) (hb : e.market.books[c.asset]? = some b) (ht : b.tick = c.tick) (hpos : 0 < c.tick) (hu32 : c.tick ≤ 4294967295)
+    (hmid : b.mid2 ≤ 8589934590) (htracked : ∀ id ∈ orders, id < b.orders.length) :
+    ∃ r, FAgents.noiseUpdate c smp orders e g = some r :=
+  FAgents.noiseUpdate_ok c smp orders e g b hb ht hpos hu32 hmid htracked
+
+theorem momentum_update_never_aborts (c : FAgents.MomP) (smp : FAgents.Sampler) (th : F → F) (s : FAgents.MomState) (e : MEnv) (g : Xoro)
+    (b : Book) (hb : e.market.books[c.asset]? = some b) (ht : b.tick = c.tick) (hpos : 0 < c.tick) (hu32 : c.tick ≤ 4294967295)
+    (hmid : b.mid2 ≤ 8589934590) (htracked : ∀ id ∈ s.orders, id < b.orders.length) :
+    ∃ r, FAgents.momUpdate c smp th s e g = some r :=
+  FAgents.momUpdate_ok c smp th s e g b hb ht hpos hu32 hmid htracked
+
+/-- The activity corners for the uniform draws these agents use (`f32` and `f64`, both in `[0, 1)`):
+a probability that is not positive never acts, one that is at least 1 always acts. -/
+theorem float_draws_in_unit_interval (g : Xoro) :
+    (∃ q : Rat, (FAgents.genF32 g).1 = .fin q ∧ 0 ≤ q ∧ q < 1) ∧ (∃ q : Rat, (FAgents.genF64 g).1 = .fin q ∧ 0 ≤ q ∧ q < 1) :=
+  ⟨FAgents.genF32_range g, FAgents.genF64_range g⟩
+
+theorem probability_0_never_acts (q : Rat) (hq : 0 ≤ q) (p : F) (hp : F64.lt (.fin 0) p = false) : F64.lt (.fin q) p = false :=
+  FAgents.draw_not_below_nonpos q hq p hp
+
+theorem probability_1_always_acts (q : Rat) (hq : q < 1) (p : F) (hp : FAgents.ge p (.fin 1) = true) : F64.lt (.fin q) p = true :=
+  FAgents.draw_below_ge_one q hq p hp
+
+/-- Non-vacuity: a noise agent (p_limit = 1, p_market = 0, p_cancel = 0; two traders; tick 2) on a book
+with mid 100.5 and a sampler returning 7/4: the update succeeds, places two limit orders on the grid on
+the right side of the mid, and the hypotheses `QuoteOk` of the theorems hold. -/
+def exEnv : MEnv :=
+  let e := MEnv.new 0 [2] 10 true 3
+  let e := (e.placeOrder 0 .bid 5 9 (some 100)).1
+  let e := (e.placeOrder 0 .ask 5 9 (some 102)).1
+  (e.step (Xoro.seed 1)).1
+def exNoise : FAgents.NoiseP := { asset := 0, tick := 2, vol := 3, traders := [7, 8], pLimit := .fin 1, pMarket := .fin 0, pCancel := .fin 0 }
+def exSmp : FAgents.Sampler := fun g => (.fin (7/4), g)
+
+example :
+    ((FAgents.noiseUpdate exNoise exSmp [] exEnv (Xoro.seed 5)).map fun r =>
+      (r.1, (r.2.1.market.books.map fun b => (b.orders.drop 2).map fun x =>
+        [(if x.order.side = .bid then 1 else 0), x.order.price, x.order.vol, x.order.trader]))) =
+      some ([2, 3], [[[0, 104, 3, 7], [1, 98, 3, 8]]]) ∧
+    (exEnv.market.books.map (·.mid2)) = [202] := by
   decide +kernel
 
 end Bourse.Props.C16
